@@ -64,6 +64,9 @@ class WsMock:
         guid = str(uuid.UUID(int=self.rng.getrandbits(128), version=4)) if self.rng else str(uuid.uuid4())
         if self.guid_case == "upper":
             guid = guid.upper()
+        elif self.guid_case == "short":
+            self.short_n = getattr(self, "short_n", 0) + 1
+            guid = ["k%d", "%d", "key%d", "g-%d"][self.short_n % 4] % self.short_n      # a key id need not look like a GUID
         secret = ("%064x" % self.rng.getrandbits(256)) if self.rng else os.urandom(32).hex()
         self.issued[guid] = secret
         return {"authorizationScheme": "Azure-HMAC-SHA256", "guid": guid, "incarnationId": 1, "issued": "2024-01-01T00:00:00Z", "key": secret}
